@@ -69,6 +69,18 @@ impl Ctx {
     pub fn aligned_diff(&mut self, on: bool) {
         self.diff_mode = if on { DiffMode::Aligned } else { DiffMode::Generic };
     }
+    /// how the rayon model schedules the parallel stages that follow: "sequential" | "reversed" | "explore"
+    pub fn schedule(&mut self, mode: &str) {
+        rayon::model::set_mode(match mode {
+            "explore" => rayon::Mode::Explore,
+            "reversed" => rayon::Mode::Reversed,
+            _ => rayon::Mode::Sequential,
+        });
+    }
+    /// native mode runs `f` on a pool of `n` worker threads; the model ignores the count (every schedule is explored)
+    pub fn with_threads<T: Send>(&mut self, _n: usize, f: impl FnOnce() -> T + Send) -> T {
+        f()
+    }
     pub fn symbolic(&self) -> bool {
         self.mode == Mode::Symbolic
     }
